@@ -157,6 +157,7 @@ class BasicRender(object):
 
     @staticmethod
     def _guess_json(bytestr: bytes):
+        bytestr = bytestr.strip()  # JSON text may have whitespace around it
         if not bytestr:
             return False
         elif bytestr[:1] == b'{' and bytestr[-1:] == b'}':
